@@ -1,6 +1,7 @@
 SPECIFICATION Spec
 CONSTANTS
   Depth = 0
+  ForeignKinds = {"valid", "multi", "samefield", "garbage", "info"}
   KeepHist = FALSE
 INVARIANT ForeignIsInert
 PROPERTY ReloadShowsLastSaved
